@@ -35,15 +35,17 @@ RULE = (
     "offsets (+- small deltas). Oracle: strict snapshot (class, column names in order, dtypes, row labels, cells, all "
     "dataclass metadata) of the argument equal before and after each operation; results documented as copies are "
     "edited in place (numpy write-through on every column, column assignment, added column, list setters, metadata "
-    "lists where the result owns them) and the argument compared again. "
+    "lists where the result owns them; for results of copy.deepcopy - deepcopy, rate, move_*_to - also the python "
+    "containers held in cells, kind shared-cell:<op>) and the argument compared again. "
     "Non-trivial = the argument has a list whose row labels are not 0..n-1, or the sequence has >= 2 operations."
 )
 ASSUMPTIONS = [
     "an operation that raises is not a C14 matter (label raised=<op>); the argument is still compared after it",
     "slices tl[a:b] and TimedList(other) are not treated as copies (they share the frame and are not documented otherwise)",
     "converter results: only their DataFrame-backed lists are edited (OsuToQua/QuaToOsu hand over the same tags list)",
-    "python objects inside cells (Quaver keysounds lists) are not edited: DataFrame deep copies do not copy them "
-    "(pandas semantics), the statement speaks of values, columns, types and row labels",
+    "python containers inside cells (Quaver keysound lists) are edited only in results of copy.deepcopy (deepcopy, rate, "
+    "move_*_to: 'Returns a deep copy of itself'), kind shared-cell:<op>; sorted/filter/append/converter results are not "
+    "documented as deep copies of cell objects (pandas take/concat semantics) and are edited at frame level only",
     "arguments are generated valid where cheap (non-empty list for row-based helpers, tuple include_ends for holds, "
     "raise_bad_mode only for supported key counts); describe() of Quaver and StepMania charts always raises "
     "(metadata() signature mismatch) - counted under raised=describe, not reported here",
@@ -51,6 +53,11 @@ ASSUMPTIONS = [
 ]
 
 SET_GAMES = ("sm", "o2j")
+
+# Results produced by copy.deepcopy: "Returns a deep copy of itself" (Map/MapSet/TimedList.deepcopy; rate and move_*_to
+# start from it).  For these the python containers held in cells (Quaver keysound lists) are edited too.
+DEEP_COPY_OPS = {"deepcopy", "list_deepcopy", "rate", "move_start_to", "move_end_to"}
+EDIT_CELL_OBJECTS = True
 
 # --------------------------------------------------------------------------------------------------------------
 # operation catalogue
@@ -224,9 +231,12 @@ def _edit_list(tl):
             elif kind == "b":
                 a[:] = ~a
             elif kind == "O":
-                v = a[0]
-                numeric = isinstance(v, (int, float, np.number)) and not isinstance(v, (bool, np.bool_))
-                a[0] = v + 1 if numeric else "__c14__"
+                # replace one cell that is not itself a container (containers are left to _cells_of / _edit_cells)
+                for i, v in enumerate(a):
+                    if not isinstance(v, (list, dict)):
+                        numeric = isinstance(v, (int, float, np.number)) and not isinstance(v, (bool, np.bool_))
+                        a[i] = v + 1 if numeric else "__c14__"
+                        break
     tl.offset = tl.offset + 1  # column assignment through the list property
     tl.df["__c14__"] = 1  # reaches the source iff the frame object itself is shared
 
@@ -251,6 +261,38 @@ def _edit_map(m, deep):
         _edit_meta(m)
         for name, tl in list(m.objs.items()):
             setattr(m, name, type(tl)([]))  # the documented way to replace a list
+
+
+def _lists_of(res, mode):
+    if res is None:
+        return []
+    if mode == "list":
+        return [res]
+    out = []
+    for it in res if isinstance(res, (list, tuple)) else [res]:
+        for m in it.maps if hasattr(it, "maps") else [it]:
+            out += list(m.objs.values())
+            out += [getattr(m, f.name) for f in dataclasses.fields(m) if hasattr(getattr(m, f.name), "df")]
+    return out
+
+
+def _cells_of(res, mode):
+    """The python containers held in cells of a result (Quaver keysound lists)."""
+    out = []
+    for tl in _lists_of(res, mode):
+        df = tl.df
+        for j, dt in enumerate(df.dtypes):
+            if dt == object:
+                out += [v for v in df.iloc[:, j] if isinstance(v, (list, dict))]
+    return out
+
+
+def _edit_cells(cells):
+    for v in cells:
+        if isinstance(v, list):
+            v.append("__c14__")
+        else:
+            v["__c14__"] = "__c14__"
 
 
 def _edit_result(res, mode):
@@ -765,10 +807,13 @@ def check(case, ctx):
                 ctx.fail("modified:" + name, f"other chart: {_diff(before_other, a2)}")
                 before_other = a2
         edited = False
+        cells = []
         for res, mode in results:
             if mode is None:
                 continue
             try:
+                if EDIT_CELL_OBJECTS and name in DEEP_COPY_OPS:
+                    cells += _cells_of(res, mode)
                 _edit_result(res, mode)
                 edited = True
             except Exception as e:  # noqa: BLE001 - a result that cannot be edited is not this property's business
@@ -785,14 +830,29 @@ def check(case, ctx):
                 if a2 != before_other:
                     ctx.fail("shared:" + name, f"other chart: {_diff(before_other, a2)}")
                     before_other = a2
+        if cells:
+            # a deep copy owns the python objects in its cells as well
+            ctx.label("edited-cells=" + name)
+            _edit_cells(cells)
+            after = B.snapshot(obj)
+            if after != before:
+                ctx.fail("shared-cell:" + name, _diff(before, after))
+                before = after
 
+
+def _quaver_keysound_cells_shared(case, failure) -> bool:
+    """proposed_fixes/C14_deepcopy_shares_cell_objects.md: deep copies of Quaver lists share the keysound lists."""
+    return case["chart"]["game"] == "qua" and failure.kind.split(":")[0] == "shared-cell" and "/cells[" in failure.msg
+
+
+KNOWN_PREDICATES = {"quaver_keysound_cells_shared": _quaver_keysound_cells_shared}
 
 SUBS = [
-    Sub("ops", check, strategy=case_st, examples={"quick": 400, "thorough": 3000}, shards={"quick": 12, "thorough": 16}),
+    Sub("ops", check, strategy=case_st, examples={"quick": 320, "thorough": 2500}, shards={"quick": 12, "thorough": 16}),
 ]
 
 MANIFEST = dict(
     technique="property-based testing: generated charts of all five games x generated operation sequences; strict before/after snapshot of every argument, and edit-the-result aliasing probe for results documented as copies",
     level_text="Exploration: thousands of generated (chart, history, operation sequence) cases per run over the whole operation catalogue (list queries, rate, copies, 17 converters, all writers, the generate/analysis/pattern algorithms); the argument's classes, columns, dtypes, row labels, cells and metadata are compared before and after every call, and every result documented as a copy is edited through its buffers, columns and setters to show the argument does not follow.",
-    level_note="trusted: vlib/gen/build.py snapshot; python objects inside cells (Quaver keysounds) and metadata handed over by converters are outside the aliasing probe; raising operations are only checked for leaving the argument intact",
+    level_note="trusted: vlib/gen/build.py snapshot; python containers inside cells (Quaver keysound lists) are probed only for results of copy.deepcopy (deepcopy, rate, move_*_to); metadata handed over by converters is outside the aliasing probe; raising operations are only checked for leaving the argument intact",
 )
